@@ -237,7 +237,29 @@ def _r10c(cx, repo):
     i_prep = idx(lambda s: "_prepare_local_colors" in norm(s))
     i_store = idx(lambda s: "_store_palette_in_cache" in norm(s))
     ok = None not in (i_lookup, i_prep, i_store) and i_lookup < i_prep < i_store
-    cx.ob("R10c", meta_call, ok, "construction: lookup, prepare colours, construct, store" if ok else "palette construction interception order altered", stmt="interception order")
+    if not ok:
+        # the same on the flow graph (helpers expanded), for any arrangement: a palette is stored only after its colours were
+        # prepared, and colours are prepared only after the cache was consulted - unless the request is for a synced palette
+        from sa.inline import inlined as _inl
+        from sa.cfg import CFG
+        from sa.guards import canon_facts as _cfs
+        mc, _u = _inl(repo.modules[REL], meta_call, nested=True)
+        g_ = CFG(mc)
+
+        def _nodes(name):
+            return [g_.node_of(enclosing_stmt(c)) for c in walk_local(mc) if isinstance(c, ast.Call) and call_name(c) == name and g_.node_of(enclosing_stmt(c)) is not None]
+        Ls, Ps, Ss = _nodes("_get_existing_palette"), _nodes("_prepare_local_colors"), _nodes("_store_palette_in_cache")
+        cx.need(Ls and Ps and Ss, "R10c", meta_call, "lookup / prepare / store calls of the palette construction")
+        ok = all(g_.reach_avoiding(g_.entry, {s_.id}, {p_.id for p_ in Ps}, follow_raise=False) is None for s_ in Ss)
+        for p_ in Ps:
+            unlooked = g_.reach_avoiding(g_.entry, {p_.id}, {l_.id for l_ in Ls}, follow_raise=False) is not None
+            if unlooked and ("expr", "synced", "", True) not in _cfs(p_.ast):
+                ok = False
+        cx.ob("R10c", meta_call, ok, "construction: the cache is consulted (non-synced requests), colours are prepared, then the palette is stored - on every path" if ok else
+              "palette construction interception order altered: a palette can be stored before its colours are prepared, or built without consulting the cache", stmt="interception order", semantic=True)
+        i_lookup = i_store = None       # the positional sub-rules below describe the reference layout only
+    else:
+      cx.ob("R10c", meta_call, ok, "construction: lookup, prepare colours, construct, store" if ok else "palette construction interception order altered", stmt="interception order")
     if i_lookup is not None:
         s = body[i_lookup]
         ok = isinstance(s, ast.If) and norm(s.test) == "not synced"
